@@ -58,6 +58,7 @@ SecPolOK == CASE E.fn = "le" -> (E.r1 = 1) <=> (E.a <= E.b)
               [] E.fn = "getitem" -> E.r1 = Coef(E.a, E.n)
               [] E.fn = "pow" -> E.r1 = PPow(E.a, E.n)
               [] E.fn = "copy" -> E.r1 = E.a
+              [] E.fn = "mod" -> E.r1 = PMod(E.a, E.b)                 \* the function secpoly.mod(a, b), b # 0
               [] OTHER -> TRUE
 \* only the length bound is public: the length of a result's share is a function of the operands' lengths (and public arguments)
 LenPublicOK == E.fn = "lens" => Cardinality({E.lens[i] : i \in DOMAIN E.lens}) = 1
